@@ -4,7 +4,7 @@
 
 use serde::{Deserialize, Serialize};
 
-use super::fixture;
+use super::{fixture, guard};
 use crate::engine::tape::{Reader, Tape};
 
 #[derive(Clone, Copy, Debug, Serialize, Deserialize, PartialEq, Eq, PartialOrd, Ord)]
@@ -186,7 +186,6 @@ pub const BASES: &[&str] = &[
     "{S}/outside_a",
     "{S}/project/src/main.st",
     "{S}/project/.env",
-    "/",
     "{S}",
     "src/sub",
 ];
@@ -455,6 +454,11 @@ fn gen_call(r: &mut Reader, op: Op) -> Call {
         }
         Op::BrowseDirectory | Op::SetActiveProject => call.path = gen_path(r),
     }
+    // containment: no generated string may be able to name anything outside the scratch moat,
+    // whatever the implementation under test does with it (see guard.rs)
+    call.path = guard::sanitize(std::mem::take(&mut call.path));
+    call.path2 = guard::sanitize(std::mem::take(&mut call.path2));
+    call.path3 = guard::sanitize(std::mem::take(&mut call.path3));
     call
 }
 
